@@ -72,13 +72,21 @@ func startPrimaryNode(dir string, cfg kv.Cfg, pcfg *replication.PrimaryConfig) (
 }
 
 func startReplicaNode(dir string, cfg kv.Cfg, primaryAddr string) (*replNode, error) {
+	return startReplicaNodeOpt(dir, cfg, primaryAddr, false)
+}
+
+// stockRetry keeps the replica's default reconnect settings (1 s base, 60 s cap) instead of the short ones
+// the other scenarios use to save time.
+func startReplicaNodeOpt(dir string, cfg kv.Cfg, primaryAddr string, stockRetry bool) (*replNode, error) {
 	eng, err := kv.Open(dir, cfg)
 	if err != nil {
 		return nil, err
 	}
 	rc := replication.DefaultReplicaConfig()
-	rc.Connection.RetryBaseDelay = 100 * time.Millisecond
-	rc.Connection.RetryMaxDelay = time.Second
+	if !stockRetry {
+		rc.Connection.RetryBaseDelay = 100 * time.Millisecond
+		rc.Connection.RetryMaxDelay = time.Second
+	}
 	m, err := replication.NewManager(eng, &replication.ManagerConfig{Enabled: true, Mode: replication.ReplicationModeReplica, PrimaryAddr: primaryAddr, ListenAddr: freePort(), ReplicaConfig: rc, ForceReadOnly: true})
 	if err == nil {
 		err = m.Start()
@@ -172,6 +180,11 @@ func runC14(c *core.Ctx, res *core.Result) {
 	join := []string{"before", "during", "after"}[(c.Idx/7)%3]
 	event := []string{"none", "restart", "linkcut", "restart"}[(c.Idx/21+c.Idx/7+c.Idx)%4]
 	nrep := 1 + (c.Idx/3)%2
+	// a replica with the stock reconnect settings that has been up and idle for a while before the writes arrive
+	longIdle := c.Idx%14 == 9
+	if longIdle {
+		workload, join, event, nrep = "many", "before", "none", 1
+	}
 	cfg := kv.Cfg{MemTableSize: 32 << 20, MaxMemTables: 4, SyncMode: []int{0, 2}[r.Intn(2)], CompactSecs: 3600}
 	feat := map[string]string{"workload": workload, "join": join, "event": event, "primary_rotated": "false"}
 	desc := fmt.Sprintf("workload=%s join=%s event=%s replicas=%d sync=%d", workload, join, event, nrep, cfg.SyncMode)
@@ -190,7 +203,7 @@ func runC14(c *core.Ctx, res *core.Result) {
 	var reps []*replNode
 	startReps := func() bool {
 		for i := len(reps); i < nrep; i++ {
-			rn, err := startReplicaNode(fmt.Sprintf("%s/replica%d", c.Dir, i), cfg, proxy.Addr())
+			rn, err := startReplicaNodeOpt(fmt.Sprintf("%s/replica%d", c.Dir, i), cfg, proxy.Addr(), longIdle)
 			if err != nil {
 				res.Inconclusive = "cannot start replica: " + err.Error()
 				return false
@@ -206,6 +219,11 @@ func runC14(c *core.Ctx, res *core.Result) {
 	}()
 	if join == "before" && !startReps() {
 		return
+	}
+	if longIdle {
+		pn.eng.Put([]byte("first"), []byte("so that the replica has been through one apply/reconnect round"))
+		time.Sleep(22 * time.Second)
+		res.Count("long_idle_scenarios", 1)
 	}
 	// workload on the primary
 	e := pn.eng
@@ -350,6 +368,15 @@ func runC14(c *core.Ctx, res *core.Result) {
 			return
 		}
 		res.Count("convergence_ms", took.Milliseconds())
+		if longIdle {
+			// stock settings: one reconnect (about 1.5 s) per chunk of 100 entries; allow 40 s + 6 s per chunk
+			allowed := 40*time.Second + time.Duration(entries/100+1)*6*time.Second
+			if took > allowed {
+				res.Violate("replica_converged_too_slowly", fmt.Sprintf("%s: a replica with the stock reconnect settings, up and idle for 22s before %d entries were written, needed %s to converge (one reconnect per 100 entries should take about %ds; allowed %s)",
+					desc, entries, took.Round(time.Second), (entries/100+1)*2, allowed), map[string]string{"workload": workload, "long_idle": "true"})
+				return
+			}
+		}
 		// ... and stays there
 		time.Sleep(2 * time.Second)
 		if d := firstDiff(scanAll(pn.eng), scanAll(rn.eng)); d != "" {
@@ -360,12 +387,18 @@ func runC14(c *core.Ctx, res *core.Result) {
 	// a lone write after the replicas have gone idle (every 6th scenario)
 	if c.Idx%6 == 0 && len(res.Violations) == 0 {
 		time.Sleep(2500 * time.Millisecond)
+		rotatedBeforeLone := c.Idx%12 == 0
+		if rotatedBeforeLone {
+			// the idle stream was opened before this rotation: it has to notice the primary's new log object
+			pn.eng.FlushImMemTables()
+			res.Count("lone_writes_after_rotation", 1)
+		}
 		pn.eng.Put([]byte("lone-write-after-idle"), val(20))
 		feat2 := map[string]string{"workload": workload, "join": join, "event": event, "primary_rotated": fmt.Sprint(rotated), "lone_write_after_idle": "true"}
 		for i, rn := range reps {
 			res.Count("lone_write_waits", 1)
 			if _, diff := waitConverged(pn.eng, rn.eng, 40*time.Second); diff != "" {
-				res.Violate("replica_did_not_converge", fmt.Sprintf("%s: all replicas had converged and were idle for 2.5s; the primary then wrote a single entry and replica %d made no progress for 40s: %s", desc, i, diff), feat2)
+				res.Violate("replica_did_not_converge", fmt.Sprintf("%s: all replicas had converged and were idle for 2.5s; the primary then (flushed first: %v) wrote a single entry and replica %d made no progress for 40s: %s", desc, rotatedBeforeLone, i, diff), feat2)
 				break
 			}
 		}
